@@ -305,7 +305,9 @@ StimSet(q) ==
 B == INSTANCE BuilderOps
 BuilderRuns(q) == IF q.family # "shared" THEN <<>>
                   ELSE SetToSeq(B!Runs("exec", BuilderSets)) \o SetToSeq(B!Runs("inst", BuilderSets))
-EmitProg(q) == q @@ [builder |-> BuilderRuns(q)] @@ [stim |-> LET ss == SetToSeq(StimSet(q)) IN [i \in 1..Len(ss) |-> ss[i] @@ [vias |-> ViasOf(q, ss[i])]]]
+(* programs whose generated multitest proxies are exercised by operation histories (C12, MC_Multitest) *)
+MtIds == {"S1", "R1", "R2", "A1", "W1"}
+EmitProg(q) == q @@ [builder |-> BuilderRuns(q), mt |-> q.id \in MtIds] @@ [stim |-> LET ss == SetToSeq(StimSet(q)) IN [i \in 1..Len(ss) |-> ss[i] @@ [vias |-> ViasOf(q, ss[i])]]]
 
 EmitCorpus ==
     LET out == IOEnv.VERIF_OUT
